@@ -65,9 +65,10 @@ verus! {
 //@extract src/db.rs :: Database :: recover as=restore_seqno world optmap props=C11+C02+C06
 //@anchor write_buffer_size.allocate(size)
 //@anchor-up 1
+//@to-block-end
 //@sig fn restore_seqno(db: &Database, keyspaces: &KsReadGuard) -> ()
 //@contract
-    requires old(w).recovering, !db.supervisor.seqno.is_visible@,
+    requires old(w).recovering, !db.supervisor.seqno.is_visible@, old(w).trees.dom().contains(0),
         forall|i: int| 0 <= i < keyspaces.vals@.len() ==> (#[trigger] keyspaces.vals@[i]).tree.id@ == keyspaces.vals@[i].id && old(w).trees.dom().contains(keyspaces.vals@[i].id),
     ensures true,
 //@loop 0
@@ -80,19 +81,12 @@ verus! {
                 forall|i: int| 0 <= i < it.index@ ==> (highest(old(w).trees[(#[trigger] keyspaces.vals@[i]).id]) is Some ==> w.seqno > highest(old(w).trees[keyspaces.vals@[i].id])->Some_0), // [C11:counter-above-every-recovered-seqno]
 //@proof before shim_slice_end
     proof {
-        // C11: after the restore loop the seqno counter dominates every seqno of every registered keyspace
+        // C11: at the end of the restore block the seqno counter dominates every seqno of every registered keyspace ...
+        assert(*w == (World { seqno: w.seqno, ..*old(w) }));
         assert(forall|i: int| 0 <= i < keyspaces.vals@.len() ==> (highest(old(w).trees[(#[trigger] keyspaces.vals@[i]).id]) is Some ==> w.seqno > highest(old(w).trees[keyspaces.vals@[i].id])->Some_0)); // [C11:counter-above-every-recovered-seqno]
+        // ... and of the meta keyspace (tree 0), whose tables are written at fresh seqnos by keyspace creation/deletion
+        assert(highest(old(w).trees[0]) is Some ==> w.seqno > highest(old(w).trees[0])->Some_0); // [C11:counter-above-the-meta-tree]
     }
-//@end
-
-//@extract src/db.rs :: Database :: recover as=restore_seqno_meta world optmap props=C11
-//@anchor meta_keyspace.get_highest_seqno
-//@sig fn restore_seqno_meta(db: &Database) -> u64
-//@yield maybe_next_seqno
-//@contract
-    requires old(w).trees.dom().contains(0),
-    ensures *final(w) == *old(w),
-        highest(old(w).trees[0]) is Some ==> r > highest(old(w).trees[0])->Some_0, // [C11:counter-above-the-meta-tree]
 //@end
 
 //@canary
